@@ -164,6 +164,20 @@ func init() {
 		Models:      []string{"as C02"},
 	})
 	reg(&PropSpec{
+		ID: "C16", Prefix: "vh_C16_", MaxSteps: 400000000,
+		Quick:    Tier{Params: map[string]int{"kwpos": 1, "spellings": 1, "history": 1}},
+		Thorough: Tier{Params: map[string]int{"kwpos": 2, "spellings": 2, "history": 2}},
+		Bounds: []string{
+			"histories: a reference call on world W2 from pristine package state, then 1..history calls on worlds W1 (every reference graph of the small family, same document locations as W2 but other content), then the reference call again on W2; calls: ExpandSpec, ExpandSchema with typed root, ResolveRefWithBase, ExpandSchemaWithBasePath; no caller-supplied cache",
+			"asserted: identical result, success and loader call log for the repeated call; the caller's options unchanged after every call",
+			"meta-schemas (decoded for real from /repo/schemas in this check): http://swagger.io/v2/schema.json#/definitions/info resolves to the same value before and after other calls and is never requested from the loader",
+			"induction: every path starts from the pristine package state established by the package initialisers; the repeated-call equality after an arbitrary bounded history, for every history of the bound, is the inductive step for longer histories only under the (unchecked) assumption that package state after a call equals pristine state - stated, not proved",
+		},
+		Outside:     []string{"longer histories, other entry points as first call"},
+		Assumptions: []string{"M-os: no file system (the default loader fails)", "as C02"},
+		Models:      []string{"as C02, without lazy meta-schemas"},
+	})
+	reg(&PropSpec{
 		ID: "C11", Prefix: "vh_C11_",
 		Quick:    Tier{Params: map[string]int{"segs": 2, "seg_len": 2}},
 		Thorough: Tier{Params: map[string]int{"segs": 3, "seg_len": 2}},
